@@ -858,6 +858,9 @@ impl<'a, 'tcx> BodyCx<'a, 'tcx> {
                 use rustc_middle::ty::adjustment::Adjust;
                 match a.kind {
                     Adjust::Deref(..) => s.push('*'),
+                    Adjust::Borrow(rustc_middle::ty::adjustment::AutoBorrow::Ref(
+                        rustc_middle::ty::adjustment::AutoBorrowMutability::Mut { .. },
+                    )) => s.push('m'),
                     Adjust::Borrow(_) => s.push('&'),
                     Adjust::NeverToAny => s.push('!'),
                     Adjust::Pointer(_) => s.push('p'),
